@@ -1,0 +1,4 @@
+// Package verifhook provides named hook points used by the runtime-verification
+// harness. In normal builds (without the `verif` build tag) every hook is an
+// empty function that the compiler removes.
+package verifhook
